@@ -2,6 +2,7 @@
 //! under catch_unwind, and writes one JSON result per line on stdout (floats as IEEE bit patterns).
 mod gates;
 mod opseq;
+mod pauli;
 mod util;
 
 use serde_json::{json, Value};
@@ -12,8 +13,50 @@ fn dispatch(case: &Value) -> Value {
         "gate" => gates::run_gate(case),
         "gate_sched" => gates::run_gate_sched(case),
         "opseq" => opseq::run_opseq(case),
+        "pauli" => pauli::run_pauli(case),
+        "sched" => sched(case),
         other => json!({"r": "harness_error", "e": format!("unknown op {}", other)}),
     }
+}
+
+/// op "sched": run the inner case on both CPU paths (threshold hook), inside rayon pools of several sizes, twice each,
+/// and from several concurrent callers; report the distinct results (volatile bookkeeping fields removed).
+fn sched(case: &Value) -> Value {
+    let inner = &case["inner"];
+    let pools = util::vus(&case["pools"]);
+    let callers = case.get("callers").map(util::vu).unwrap_or(4);
+    let strip = |mut v: Value| { if let Some(o) = v.as_object_mut() { o.remove("hits"); o.remove("readback"); o.remove("perm_agree"); } v };
+    let mut outs: Vec<(String, String, Value)> = vec![];
+    for &thr in &[64usize, 1usize] {
+        let mut c = inner.clone();
+        c["thr"] = json!(thr);
+        for &p in &pools {
+            let pool = rayon::ThreadPoolBuilder::new().num_threads(p).build().unwrap();
+            for rep in 0..2 {
+                let r = std::panic::catch_unwind(std::panic::AssertUnwindSafe(|| pool.install(|| dispatch(&c))))
+                    .unwrap_or_else(|p| util::panic_json(p));
+                let r = strip(r);
+                outs.push((format!("thr{} pool{} rep{}", thr, p, rep), r.to_string(), r));
+            }
+        }
+        let rs: Vec<Value> = std::thread::scope(|sc| {
+            let hs: Vec<_> = (0..callers).map(|_| sc.spawn(|| {
+                std::panic::catch_unwind(std::panic::AssertUnwindSafe(|| dispatch(&c))).unwrap_or_else(|p| util::panic_json(p))
+            })).collect();
+            hs.into_iter().map(|h| h.join().unwrap_or(json!({"r": "panic", "msg": "join"}))).collect()
+        });
+        for (i, r) in rs.into_iter().enumerate() {
+            let r = strip(r);
+            outs.push((format!("thr{} caller{}", thr, i), r.to_string(), r));
+        }
+    }
+    let mut distinct: Vec<(String, Value)> = vec![];
+    let mut seen: Vec<String> = vec![];
+    for (label, key, val) in &outs {
+        if !seen.contains(key) { seen.push(key.clone()); if distinct.len() < 64 { distinct.push((label.clone(), val.clone())); } }
+    }
+    json!({"r": "sched", "variants": outs.len(), "ndistinct": seen.len(),
+           "distinct": distinct.iter().map(|(l, v)| json!({"label": l, "res": v})).collect::<Vec<_>>()})
 }
 
 fn main() {
